@@ -183,6 +183,25 @@ def atoms(t, acc=None):
     return acc
 
 
+def subterms(t):
+    """every sub-term (tuples with a string head), including t, pre-order"""
+    if not isinstance(t, tuple) or not t:
+        return
+    if not isinstance(t[0], str):
+        for x in t:
+            yield from subterms(x)
+        return
+    yield t
+    if t[0] == "poly":
+        for m, _ in t[1]:
+            for x in m:
+                yield from subterms(x)
+        return
+    for x in t[1:]:
+        if isinstance(x, tuple):
+            yield from subterms(x)
+
+
 def atoms_top(t):
     """atoms occurring as factors of the monomials of t (not their sub-terms)"""
     out = set()
